@@ -287,13 +287,7 @@ def r4_vartrail(ctx):
 def run(ctx):
     rep = ctx.rep
     r1(ctx)
-    vs = list(ctx.core())
-    if ctx.tier == 'thorough':
-        rows = variants.covering_array(3, ctx.seed)
-        extra = [variants.variant_from_vector(vec, 'ca%04d' % i) for i, vec in enumerate(rows)]
-        variants.instantiate(ctx.art, extra, 'ca3_seed%d' % ctx.seed)
-        vs += extra
-        rep.setcount('covering_array_rows', len(rows))
+    vs = list(ctx.core())      # thorough tier: core + 3-wise covering array (added by the driver)
     nvec = r2(ctx, vs)
     cov = coverage(ctx, [v for v in vs if not v.name.startswith('ca')])
     r3(ctx); r4(ctx); r4_vartrail(ctx)
